@@ -165,19 +165,30 @@ package keeper
 //@   property C12, C14
 //@   returns nfts, err
 //@   invariant #1 idx: rangeindex >= 0 - 1 && rangeindex < len(tokens) && len(nfts) == rangeindex + 1
+//@   invariant #1 each: forall j:Int :: 0 <= j && j <= rangeindex ==> nfts[j].Id == tokens[j].Id && nfts[j].Owner == bech(OWNER(denom, tokens[j].Id))
+//@                         && nfts[j].URI == tokens[j].Uri && nfts[j].UriHash == tokens[j].UriHash
 //@   ensures all_listed: err == nil ==> len(nfts) == len(nftsof(denom))
+// each token is exported under its id with the owner the token module records for it (C14: one owner, kept over a restart)
+//@   ensures with_owner: err == nil ==> (forall j:Int :: 0 <= j && j < len(nfts) ==> nfts[j].Id == nftsof(denom)[j].Id
+//@                         && nfts[j].Owner == bech(OWNER(denom, nftsof(denom)[j].Id)) && nfts[j].URI == nftsof(denom)[j].Uri && nfts[j].UriHash == nftsof(denom)[j].UriHash)
 //@ end
-// every class of the token module appears in the export, each with as many tokens as the class holds
-//@ define exportedIn(cs, id) = exists j:Int :: 0 <= j && j < len(cs) && cs[j].Denom.Id == id && len(cs[j].NFTs) == len(nftsof(id))
+// every class of the token module appears in the export, each with all the tokens the class holds, every token under its id with its recorded owner
+//@ define tokensOf(col, id) = len(col.NFTs) == len(nftsof(id)) && (forall m:Int :: 0 <= m && m < len(col.NFTs) ==> col.NFTs[m].Id == nftsof(id)[m].Id && col.NFTs[m].Owner == bech(OWNER(id, nftsof(id)[m].Id)))
+//@ define exportedIn(cs, id) = exists j:Int :: 0 <= j && j < len(cs) && cs[j].Denom.Id == id
 //@ func Keeper.GetCollections(ctx)
 //@   property C12, C14
 //@   returns cs, err
 //@   invariant #1 idx:  rangeindex >= 0 - 1 && rangeindex < len(rangeover) && len(cs) == rangeindex + 1
-//@   invariant #1 done: forall j:Int :: 0 <= j && j <= rangeindex ==> cs[j].Denom.Id == rangeover[j].val.Id && len(cs[j].NFTs) == len(nftsof(rangeover[j].val.Id))
+//@   invariant #1 done: forall j:Int :: 0 <= j && j <= rangeindex ==> cs[j].Denom.Id == rangeover[j].val.Id
+//@   invariant #1 toks: forall j:Int :: 0 <= j && j <= rangeindex ==> tokensOf(cs[j], cs[j].Denom.Id)
 //@   ensures every_class: err == nil ==> (forall id:Str :: has(nftClasses, id) ==> exportedIn(cs, id))
+//@   by every_class: inv:done, inv:idx
+//@   ensures every_token: err == nil ==> (forall j:Int :: 0 <= j && j < len(cs) ==> tokensOf(cs[j], cs[j].Denom.Id))
 //@ end
 //@ func Keeper.ExportGenesis(ctx)
 //@   property C12, C14
 //@   returns gs
 //@   ensures every_class: forall id:Str :: has(nftClasses, id) ==> exportedIn(gs.Collections, id)
+//@   by every_class: GetCollections.every_class
+//@   ensures every_token: forall j:Int :: 0 <= j && j < len(gs.Collections) ==> tokensOf(gs.Collections[j], gs.Collections[j].Denom.Id)
 //@ end
